@@ -41,6 +41,7 @@ type Case struct {
 	Strict    bool        `json:",omitempty"` // replay with the strict (RFC 6265 cookie-octet) client model
 	GoPath    string      `json:",omitempty"` // path of the redirecting handler ("" = /go)
 	NextRedir bool        `json:",omitempty"` // the consuming handler answers with a redirect of its own (without messages)
+	NextClear bool        `json:",omitempty"` // the consuming handler ends with c.ClearCookie() - "forget every cookie of this client"
 	NextChain bool        `json:",omitempty"` // ... and that redirect attaches a message of its own (a chain of flash redirects)
 	NextPath  string      `json:",omitempty"` // path of the consuming handler ("" = /next); nested paths have a default cookie path other than "/"
 }
@@ -135,6 +136,9 @@ func newApp(c Case, s *seen) *fiber.App {
 		}
 		sort.Strings(s.msgs)
 		sort.Strings(s.inputs)
+		if c.NextClear {
+			ctx.ClearCookie()
+		}
 		if c.NextRedir {
 			r := ctx.Redirect() // e.g. a moved page or a login wall: consumes the messages
 			if c.NextChain {
@@ -514,7 +518,7 @@ func genCase(t *rapid.T) Case {
 	c := Case{Status: rapid.SampledFrom([]int{0, 0, 301, 303, 307}).Draw(t, "status"), Strict: rapid.IntRange(0, 9).Draw(t, "strict") == 0,
 		NextRedir: rapid.IntRange(0, 3).Draw(t, "nextredir") == 0, NextChain: rapid.Bool().Draw(t, "nextchain"),
 		GoPath: rapid.SampledFrom([]string{"", "", "/area/go", "/a/b/c/go"}).Draw(t, "gopath"), NextPath: rapid.SampledFrom([]string{"", "", "/app/next/deep", "/users/42/edit"}).Draw(t, "nextpath"),
-		Via: rapid.SampledFrom([]string{"", "", "route", "routeq", "back"}).Draw(t, "via")}
+		Via: rapid.SampledFrom([]string{"", "", "route", "routeq", "back"}).Draw(t, "via"), NextClear: rapid.IntRange(0, 4).Draw(t, "nextclear") == 0}
 	n := rapid.IntRange(0, 5).Draw(t, "nmsgs")
 	for i := 0; i < n; i++ {
 		m := Msg{K: genStr(t, "key"), V: genStr(t, "val")}
